@@ -64,3 +64,23 @@ def hook_account(channel, sender, prefix):
     th = hashlib.sha256(b"ibc-wasm-hook-intermediary").digest()
     h = hashlib.sha256(th + f"{channel}/{sender}".encode()).digest()
     return encode(prefix, h)
+
+
+def decode_hrp(a):
+    """hrp of a valid bech32 / bech32m string, else None (BIP-173 decoding rules)"""
+    if not isinstance(a, str) or any(ord(c) < 33 or ord(c) > 126 for c in a):
+        return None
+    if a.lower() != a and a.upper() != a:
+        return None
+    a = a.lower()
+    pos = a.rfind("1")
+    if pos < 1 or pos + 7 > len(a):
+        return None
+    hrp, data = a[:pos], a[pos + 1:]
+    if any(c not in CHARSET for c in data):
+        return None
+    vals = [CHARSET.index(c) for c in data]
+    pm = polymod(hrp_expand(hrp) + vals)
+    if pm not in (1, 0x2BC830A3):
+        return None
+    return hrp
